@@ -170,6 +170,12 @@ def rule_lk_map(cx, rep, port):
                 mapping['<else of {}>'.format(chars[0])] = n.value.orelse.value
         if isinstance(n, ast.If):
             chars = _chars_tested(inline_single_defs(n.test, fd), pat)
+            if chars is None and n.body and isinstance(n.body[-1], ast.Continue) and not n.orelse:
+                # guard clause `if c != '_' and c != '%': continue`: what follows handles exactly those characters
+                neg = _chars_tested_neg(inline_single_defs(n.test, fd), pat)
+                if neg is not None and len(neg) > 1:
+                    specials |= set(neg)
+                continue
             if chars is None:
                 continue
             specials |= set(chars) if len(chars) > 1 else set()
@@ -226,6 +232,24 @@ def _chars_tested(test, pat):
         out = []
         for v in test.values:
             r = _chars_tested(v, pat)
+            if r is None:
+                return None
+            out.extend(r)
+        return out
+    return None
+
+
+def _chars_tested_neg(test, pat):
+    """pattern[i] != '_' and pattern[i] != '%' | pattern[i] not in '_%'  -> the characters the test excludes"""
+    if isinstance(test, ast.Compare) and len(test.ops) == 1 and isinstance(test.ops[0], (ast.NotEq, ast.NotIn)):
+        flipped = ast.Compare(left=test.left, ops=[ast.Eq() if isinstance(test.ops[0], ast.NotEq) else ast.In()], comparators=test.comparators)
+        return _chars_tested(flipped, pat)
+    if isinstance(test, ast.UnaryOp) and isinstance(test.op, ast.Not):
+        return _chars_tested(test.operand, pat)
+    if isinstance(test, ast.BoolOp) and isinstance(test.op, ast.And):
+        out = []
+        for v in test.values:
+            r = _chars_tested_neg(v, pat)
             if r is None:
                 return None
             out.extend(r)
